@@ -429,6 +429,7 @@ func (m *model) poll(in, out, n, pn uint64) uint32 {
 func modelTrace(alpha []letter, word []int) []byte {
 	m := newModel()
 	out := make([]byte, 0, len(word)*(5+winSize))
+	_, word = hostOf(alpha, word) // a host-mode letter is no call, and the defaults do not depend on it
 	for _, li := range word {
 		k, v := m.step(&alpha[li])
 		out = append(out, k, byte(v), byte(v>>8), byte(v>>16), byte(v>>24))
